@@ -39,7 +39,7 @@ PROPS["C20"] = {
 
 PROPS["C17"] = {
     "lean": ["OlricModel.Props.C17"],
-    "streams": [("codec", (6, 2500), (40, 20000)), ("kv", (10, 300), (100, 400))],
+    "streams": [("codec", (6, 2500), (40, 20000)), ("kv", (10, 300), (100, 400)), ("cluster", (8, 150), (80, 400))],
     "model": True,
     "level_text": "Round-trip theorems for all inputs: decodeRec(encodeRec r) = r for every encodable record (any key/value bytes, any length below the field widths); ParseInt/ParseUint of the decimal text of n is n for every width when in range and a range error otherwise; Put-then-Get returns the stored record in every reachable store state; the two size limits are exact and a refused insert changes nothing; a record moved inside a table arrives unchanged. Tied to internal/resp, entry.Encode/Decode and kvstore by the codec and kv streams (byte-for-byte comparison).",
     "design_ref": "DESIGN.md §6 C17",
@@ -72,7 +72,7 @@ PROPS["C18"] = {
 
 PROPS["C16"] = {
     "lean": ["OlricModel.Generated.ParsersSafe", "OlricModel.Props.C16"],
-    "streams": [("parsers", (2, 60000), (6, 2000000))],
+    "streams": [("parsers", (2, 60000), (6, 2000000)), ("handlers", (1, 1500), (6, 6000))],
     "model": True,
     "technique": "Lean 4: verified abstract-interpretation checker (safe_sound) + per-parser `decide` obligations over a model REGENERATED from the Go source by a go/ast translator on every run; translator validated by lock-step runs of the IR interpreter against the real parsers",
     "level_text": "For every Parse*Command function found in internal/protocol at check time — translated mechanically to a small IR — the Lean kernel checks `safe prog = true`, and the once-proved theorem safe_sound lifts that to: for all argument vectors of all lengths and all strconv behaviours the parser returns a command or an error (no out-of-range index/slice, every option loop terminates). The translation is validated against the real functions on exhaustive short vectors and random long ones. Handler-level checks (ids, payloads) are exercised by the cluster handlers stream.",
@@ -109,6 +109,16 @@ PROPS["C09"] = {
     "design_ref": "DESIGN.md §6 C09",
     "modelled": DMAP_MODELLED,
     "assumptions": ["EX/EXAT travel as decimal float seconds on forwarded paths; the stream uses whole seconds for them (sub-second float rounding is outside the model)", "idle eviction (MaxIdleDuration) is C10"],
+}
+
+PROPS["C15"] = {
+    "lean": ["OlricModel.Props.C15"],
+    "streams": [("cluster", (14, 150), (200, 400))],
+    "model": True,
+    "level_text": "Theorems: the option codec of a forwarded Put (writePutCommand -> handler) is the identity on every configuration the API can build, so the owner executes the same Put whatever the entry path (C15_put_roundtrip, C15_put_paths_equal); a multi-key Delete deletes every key on its owner exactly once and returns the key count for every processing order of the per-owner groups; pipeline slot mapping. The handler/forwarding shapes are extracted from the source on every run. Tied to the code by the cluster stream: every operation kind x option combination through embedded (owner / non-owner), cluster client, raw RESP and (multi-command) pipelines, results and white-box copies compared.",
+    "design_ref": "DESIGN.md §6 C15",
+    "modelled": "dmap.writePutCommand, protocol.Put.Command, putCommandHandler, DMap.put forwarding, deleteKeys, pipeline addCommand (Proto/Codec.lean)",
+    "assumptions": ["EX/EXAT are carried as decimal float seconds: only float-exact values are compared (A-float)", "a zero duration option (PX 0) is indistinguishable from an absent one on the wire (known limitation of the wire format, not exercised)"],
 }
 
 NOT_CLAIMED = {}
